@@ -273,7 +273,7 @@ def judge(ctx, binary, scripts, traces, tag, seen):
     drifts = parallel(drift, sel, n=4)
     inconclusive = sum(1 for d in drifts if d == "inconclusive")
     ctx.log("%s: %d traces validated against DpqI (%d inconclusive)" % (tag, len(sel), inconclusive))
-    if inconclusive == len(sel):
+    if sel and inconclusive == len(sel) and not ctx.violations:
         raise Broken("conformance of DpqI to the code could not be established for any %s recording (search timed out)" % tag)
     if inconclusive:
         ctx.notes.append("%s: %d of %d DpqI validations ran out of time (no statement)" % (tag, inconclusive, len(sel)))
@@ -356,6 +356,12 @@ def run(ctx):
             pre + [{"ev": "tick"}, B("e", 0, 3 * k), {"ev": "tick"}, {"ev": "tick"}],                                # roll-over first
             pre + [{"ev": "race", "ops": [B("e", 2, 3 * k), B("f", 0, 3 * k)], "together": True}, {"ev": "tick"}, {"ev": "tick"}]]})
         names.append("boundary/" + mode)
+    # the queue-size bookkeeping after expired entries were skipped by the roll-over: the bound must still hold
+    for mode, k in (("dpq", 1), ("plugin", 2)):
+        tk = [{"ev": "tick"}] * k
+        scripts.append({"config": {"quota": 1, "w": 2 * k, "qsize": 1, "mode": mode}, "histories": [
+            [{"ev": "reset", "now": 0}, B("a", 0, 3 * k), B("b", 0, 1 * k)] + tk + tk + [B("c", 0, 3 * k), B("d", 0, 3 * k), B("e", 0, 3 * k), B("f", 0, 3 * k)] + tk + tk + [B("g", 0, 3 * k), B("h", 0, 3 * k)] + tk]})
+        names.append("size-after-expiry/" + mode)
     # reconfiguration at plugin level: the remedy is re-applied under the same name with the quota raised / lowered
     def E(i, ttl):
         return {"ev": "enq", "id": i, "prio": 0, "ttl": ttl}
